@@ -132,6 +132,21 @@ def _f_genotype(ctx, x):
     return [arg], lambda: [ctx.lst(GenotypeRowEncoding.encode(arg)), ctx.lst(GenotypeRowEncoding.decode(GenotypeRowEncoding.encode(arg)))]
 
 
+@reg("apply_variants", lambda V: _decl_text(V, [(f"b{i}", [65, 67, 71, 84]) for i in range(4)] + [("alt", [65, 67, 71, 84]), ("p0", 0, 3)]))
+def _f_apply_variants(ctx, x):
+    """a SNP applied to an already encoded sequence: the reference passed in must stay as it was"""
+    from bionumpy.variants.consensus import apply_variants_to_sequence
+    from bionumpy.datatypes import VCFEntry
+    from bionumpy.encoded_array import EncodedArray, EncodedRaggedArray, BaseEncoding
+    seq = EncodedArray(ctx.arr([x[f"b{i}"] for i in range(4)], "uint8"), BaseEncoding)
+    pos = x["p0"]
+    table = ctx.arr([x[f"b{i}"] for i in range(4)], "uint8")
+    ref = EncodedRaggedArray(EncodedArray(table[ctx.arr([pos], "int64")], BaseEncoding), [1])
+    alt = EncodedRaggedArray(EncodedArray(ctx.arr([x["alt"]], "uint8"), BaseEncoding), [1])
+    variants = VCFEntry(["c"], ctx.arr([pos], "int64"), ["."], ref, alt, ["."], ["."], ["."])
+    return [seq], lambda: ctx.lst(apply_variants_to_sequence(seq, variants).raw())
+
+
 @reg("reverse_complement", lambda V: _decl_text(V, [(f"b{i}", [65, 67, 71, 84, 78, 97, 99, 103, 116, 110]) for i in range(4)]))
 def _f_revcomp(ctx, x):
     from bionumpy.sequence import get_reverse_complement
@@ -310,7 +325,8 @@ class ChunkFields(Harness):
               "thorough": "3 records"}
 
     def skeletons(self, tier, seed):
-        return [dict(kind=k, mode=m) for k in ("bed12", "bed6", "fastq", "vcf") for m in ("write_read_write", "read_twice", "read_replace_write")
+        return [dict(kind=k, mode=m) for k in ("bed12", "bed6", "fastq", "vcf")
+                for m in ("write_read_write", "read_twice", "read_replace_write", "slice_write_read_parent")
                 if not (k in ("fastq", "vcf") and m == "read_replace_write")]
 
     def _file(self, skel, x):
@@ -398,6 +414,13 @@ class ChunkFields(Harness):
             again = chunk[:]
             res["f2"] = {nm: _snap(ctx, getattr(again, nm)) for nm in names if res["f1"][nm] != "unnormalised"}
             res["f1"] = {k: v for k, v in res["f1"].items() if v != "unnormalised"}
+        elif skel["mode"] == "slice_write_read_parent":
+            # writing a slice that does not start at row 0 must not disturb the chunk it was taken from
+            fresh = NpDataclassReader(NumpyFileReader(ctx.file(self._file(skel, x)), B), lazy=True).read()
+            res["w_slice"] = write(chunk[1:])
+            res["f1"] = read_all()
+            res["f2"] = {nm: (_snap(ctx, getattr(fresh, nm)) if res["f1"][nm] != "unnormalised" else "unnormalised") for nm in names}
+            res["w2"] = write(chunk); res["w1"] = write(fresh)
         else:
             res["f1"] = read_all()
             res["w1"] = write(replace(chunk, start=ctx.arr([x["new0"], x["new1"]], "int64")))
@@ -418,6 +441,9 @@ class ChunkFields(Harness):
             return z_and(conj) if ok else False
         if skel["mode"] == "read_twice":
             ok = P._eq(out["f1"], out["f2"], conj)
+            return z_and(conj) if ok else False
+        if skel["mode"] == "slice_write_read_parent":
+            ok = P._eq(out["f1"], out["f2"], conj) and P._eq(out["w1"], out["w2"], conj)
             return z_and(conj) if ok else False
         # read_replace_write: unmodified write is the source text; the replaced write keeps every other cell
         body = out["w_plain"]
@@ -459,6 +485,11 @@ class ChunkFields(Harness):
         if skel["mode"] == "read_twice":
             from vlib.job import same
             return None if same(cout["f1"], cout["f2"]) else f"chunk of {text!r}: fields parsed twice differ: {cout['f1']} vs {cout['f2']}"
+        if skel["mode"] == "slice_write_read_parent":
+            from vlib.job import same
+            if not same(cout["f1"], cout["f2"]):
+                return f"chunk of {text!r}: after writing chunk[1:] the chunk's fields read {cout['f1']}, a fresh read of the file gives {cout['f2']}"
+            return None if cout["w1"] == cout["w2"] else f"chunk of {text!r}: after writing chunk[1:] the chunk itself is written as {bytes(cout['w2'])!r}"
         if cout["w_plain"] != list(text):
             return f"chunk of {text!r} written unmodified after reading its fields: {bytes(cout['w_plain'])!r}"
         exp_lines = [l.split(b"\t") for l in text.split(b"\n")[:-1]]
